@@ -158,9 +158,13 @@ func (w *world) step(s *vfs.Session, dir string, n **node.Node, st string) {
 			return
 		}
 	case 'X':
-		(*n).Close()
-		// the old process is gone: its goroutines never run again, its pending index is forgotten
+		// A clean shutdown: Close stops the writer wherever it is (records that are still pending stay
+		// in tmp.data and are redelivered by the next start) and the process exits. Its goroutines never
+		// run again, its pending index is forgotten. (In the real code the writer, once Quit is closed,
+		// may or may not take further records from its queue — `select` picks at random; the harness
+		// fixes "it takes none". Under S0 nothing is pending here anyway.)
 		s.NewInstance()
+		(*n).Close()
 		nn, err := openNode(dir)
 		if err != nil {
 			wal, _ := os.ReadFile(dir + "/tmp.data")
